@@ -20,6 +20,8 @@ import (
 	"net/http"
 	"net/http/httptest"
 	"net/url"
+	"os"
+	"runtime"
 	"sort"
 	"strconv"
 	"strings"
@@ -998,8 +1000,10 @@ func (w *vC10World) race(n int) string {
 		}
 	}
 	stop := make(chan struct{})
-	go drain(a, stop)
-	go drain(b, stop)
+	var drainers sync.WaitGroup
+	drainers.Add(2)
+	go func() { defer drainers.Done(); drain(a, stop) }()
+	go func() { defer drainers.Done(); drain(b, stop) }()
 	var wg sync.WaitGroup
 	wg.Add(2)
 	go func() {
@@ -1016,11 +1020,13 @@ func (w *vC10World) race(n int) string {
 		}
 	}()
 	wg.Wait()
+	// the drainers must be gone before the markers are sent (they would swallow the answers)
+	close(stop)
+	drainers.Wait()
 	// both connections answer a marker once they have worked through their queue
 	for _, c := range []*vC10Conn{a, b} {
 		c.send(websocket.TextMessage, []byte(`{"id":"vsync-race","type":"message","message":{"recipient":{"type":"vsync"},"data":1}}`)) // nolint
 	}
-	close(stop)
 	res := "ok"
 	for _, c := range []*vC10Conn{a, b} {
 		var kinds []string
@@ -1028,6 +1034,13 @@ func (w *vC10World) race(n int) string {
 			return m != nil && m.Type == "error" && m.Id == "vsync-race"
 		}) {
 			res = "stuck"
+		}
+	}
+	if res == "stuck" {
+		if p := os.Getenv("VERIF_C10_DUMP"); p != "" {
+			buf := make([]byte, 8<<20)
+			buf = buf[:runtime.Stack(buf, true)]
+			os.WriteFile(p, buf, 0o600) // nolint
 		}
 	}
 	// leave again so that the world is as before (apart from the transient key)
